@@ -59,8 +59,8 @@ def r09a(ck, fb):
         if b.name in PAIR_EXCEPTIONS:
             ck.ok('R09a', b.name + ':exception', b.where(), PAIR_EXCEPTIONS[b.name])
             continue
-        ii = util.mut_calls_on_field(b, 'tenant_index', r'TenantIndex::insert_config$')
-        ri = util.mut_calls_on_field(b, 'tenant_index', r'TenantIndex::remove_config$')
+        ii = util.mut_calls_on_field(b, 'tenant_index', r'TenantIndex::insert_config$', deep=1)
+        ri = util.mut_calls_on_field(b, 'tenant_index', r'TenantIndex::remove_config$', deep=1)
         for s in ins:
             ok = any(cfg.dominates_blocks(b, {x.bb}, s.bb) or cfg.must_pass_before_return(b, s.bb, {x.bb}) for x in ii)
             ck.require(ok, 'R09a', '%s:insert<->insert_config' % b.name, s.where(),
